@@ -5,6 +5,12 @@ V = os.path.dirname(os.path.dirname(os.path.abspath(__file__)))
 ALL = ["C%02d" % i for i in range(1, 21)]
 
 CLAIMED = {
+ "C20": dict(
+   level="exploration",
+   text="Per case 1-10 requests against a fresh receiver session (ECMAScript or rfsm-expression) of an executor with the BasicHTTP processor (127.0.0.1:5555), issued by 1-8 concurrent posters: valid POSTs (1-3 extra fields / only _content / only the name), POSTs to an unknown session, without _scxmleventname, with a non-numeric session path, and events sent by a second session with <send type='basichttp' | full URI> to the location the receiver reads from _ioprocessors. Names and values over an alphabet that needs percent-encoding (space & = + % # ? / non-ASCII newline quotes < ; ~ dots brackets upper/lower case); bodies written by the harness' own encoder with generated spelling choices over a raw TCP socket. Oracle: 2xx and exactly one event with that name whose _event.data holds exactly the other fields (or the _content value); invalid request: status >= 400 and no event before the sentinel; session send: exactly one event with the same name and the textual form of each parameter.",
+   design="6/C20",
+   note="Loopback only; one worker because the processor binds the fixed port 5555 (lock file /verif/work/c20.port5555.lock); a busy port makes the run inconclusive (exit 2), never a violation. _event.raw and requests carrying _content together with other fields are outside the property.",
+   technique="property-based testing: generated HTTP requests with an independent percent-encoder + exactly-once/field-equality/status oracle; differential send-side vs receive-side encoding"),
  "C14": dict(
    level="exploration",
    text="Parent/child document pairs from templates with generated parameters (1-3 invokes with inline content in a compound or parallel invoking state, explicit or generated invoke ids, autoforward, namelist/param for declared and undeclared child data, finalize blocks whose effect a transition guard reads, a state entered and left within one macrostep, an independent invoking state in a sibling region, children of five kinds incl. one with an invoked grandchild; rfsm-expression and ECMAScript) driven by generated host scripts (enter / leave / re-enter, host events, stop requests, pauses 0-8 ms, optional lock jitter). All sessions write one merged time-stamped mark log; eight history invariants decide: started exactly once per surviving entry and never for the flash state, only declared data receive values, cancelled on exit (and only then), invokeid on child events, finalize before selection and only for its own invoke, every host event forwarded to autoforward children, done.invoke exactly once after all other events of that child, nothing processed from a child after its state was exited.",
